@@ -310,6 +310,23 @@ def deep_tree_section(rng, res, count):
                     open("f.txt", "wb").write(body); files[rel + "f.txt"] = body
             finally:
                 os.chdir(cwd0)
+            if direction == "push":
+                # second shape (D23): the directories are all listable, ONE file's own path is too long (its stat fails)
+                shutil.rmtree(sroot, ignore_errors=True); os.makedirs(sroot)
+                files, rel = {"top.txt": b"top"}, ""
+                try:
+                    os.chdir(sroot)
+                    open("top.txt", "wb").write(b"top")
+                    while len(sroot) + len(rel) + 201 < 4000:
+                        os.mkdir(comp); os.chdir(comp); rel += comp + "/"
+                    pad = "p" * (4060 - len(sroot) - len(rel) - 1)
+                    os.mkdir(pad); os.chdir(pad); rel += pad + "/"
+                    open("short.txt", "wb").write(b"its path fits"); files[rel + "short.txt"] = b"its path fits"
+                    open("L" * 230, "wb").write(b"its path does not"); files[rel + "L" * 230] = b"its path does not"
+                finally:
+                    os.chdir(cwd0)
+                direction = "local"
+                droot = sb.path("dst"); os.makedirs(droot, exist_ok=True)
             rc, out, err = sb.run(["sync", "-r", sroot, droot if direction == "local" else f"{HOST}:rdst"], timeout=120)
             out, err = out.decode("utf-8", "replace"), err.decode("utf-8", "replace")
             got = {}
@@ -367,6 +384,68 @@ def unlistable_dir_section(rng, res, count):
     return n
 
 
+def split_listing_section(rng, thorough, res, count):
+    """C19 / C04: the plan does not depend on how the remote listing is cut into reads. Pull and push with `--delete --dry-run`
+    on trees that need NO action, the `find` output delivered in two pieces with a pause, cut right before / after each record
+    terminator and inside a record (seed C19-K: a streaming parser lost a record whose NUL terminator began the next read)."""
+    src = {"a.txt": (b"alpha", 1_650_000_000, 0), "b.txt": (b"bravo!", 1_650_000_001, 0), "sub/c.txt": (b"charlie", 1_650_000_002, 0), "sub/d e.txt": (b"delta", 1_650_000_003, 0)}
+    n = 0
+    for direction in ("pull", "push"):
+        with Sandbox("C19sp") as sb:
+            rc, out, err, s1, d1, sroot, droot = run_case(sb, rng, direction, src, dict(src), ["--delete"], count, dry=True)
+            base_plan = [ln for ln in (out + err).splitlines() if ln.startswith("Plan:")]
+            remote_root = sroot if direction == "pull" else droot
+            listing = subprocess.run(["bash", "-c", "cd " + remote_root + " && find . -type f -printf '%s\\t%T@\\t%p\\0'"], stdout=subprocess.PIPE).stdout
+            cuts = set()
+            for i, ch in enumerate(listing):
+                if ch == 0:
+                    cuts |= {i, i + 1, max(1, i - 1)}
+            cuts |= {1, len(listing) // 2}
+            cuts = sorted(c for c in cuts if 0 < c < len(listing))
+            if not thorough:
+                cuts = cuts[:14]
+            sb.env["SSH_STUB_SPLIT_MATCH"] = "find "
+            for c_ in cuts:
+                sb.env["SSH_STUB_SPLIT_AT"] = str(c_)
+                sarg, darg = (f"{HOST}:rsrc", droot) if direction == "pull" else (sroot, f"{HOST}:rdst")
+                rc2, o2, e2 = sb.run(["sync", "-r", sarg, darg, "--delete", "--dry-run"], timeout=60)
+                txt = o2.decode("utf-8", "replace") + e2.decode("utf-8", "replace")
+                plan = [ln for ln in txt.splitlines() if ln.startswith("Plan:")]
+                n += 1
+                count(f"split-listing/{direction}")
+                if plan != base_plan or rc2 != rc:
+                    res["violations"].append(("plan-depends-on-how-the-listing-arrives", f"{direction}: with the remote listing ({len(listing)} bytes) delivered as {c_} bytes, a pause, the rest, the plan is {plan} (rc {rc2}); in one piece it is {base_plan} (rc {rc})",
+                                              {"direction": direction, "cut_after_byte": c_, "listing_hex": listing.hex()[:400], "output": txt[-400:]}))
+                    break
+    return n
+
+
+def symlink_second_run_section(res, count):
+    """C14 next to its domain: the source holds a symlink to a regular file (`releases/latest.bin -> v1.bin`). The tool lists it
+    as a file and delivers the target's bytes; a second run of the same command must then find nothing to do (seed C14-K: the
+    scan took the LINK's own size and mtime, which never match what was delivered)."""
+    for direction, flags in (("local", []), ("push", []), ("local", ["--delete", "--jobs", "1"])):
+        with Sandbox("C14sl") as sb:
+            sroot = sb.path("src")
+            droot = sb.path("dst") if direction == "local" else os.path.join(sb.home, "rdst")
+            os.makedirs(os.path.join(sroot, "releases")); os.makedirs(droot, exist_ok=True)
+            open(os.path.join(sroot, "releases", "v1.bin"), "wb").write(b"release one " * 40)
+            open(os.path.join(sroot, "notes.txt"), "wb").write(b"notes\n")
+            os.symlink("v1.bin", os.path.join(sroot, "releases", "latest.bin"))
+            for p_ in ("releases/v1.bin", "notes.txt"):
+                os.utime(os.path.join(sroot, p_), (1_650_000_000, 1_650_000_000))
+            darg = droot if direction == "local" else f"{HOST}:rdst"
+            rc1, o1, e1 = sb.run(["sync", "-r", sroot, darg] + flags, timeout=60)
+            snap = read_tree(droot)
+            rc2, o2, e2 = sb.run(["sync", "-r", sroot, darg] + flags, timeout=60)
+            txt = o2.decode("utf-8", "replace") + e2.decode("utf-8", "replace")
+            count(f"symlink-second-run/{direction}")
+            plan = [ln for ln in txt.splitlines() if ln.startswith("Plan:")]
+            rep = {"direction": direction, "flags": flags, "rc1": rc1, "rc2": rc2, "second_run_plan": plan, "second_run_output": txt[-300:]}
+            if rc1 == 0 and (rc2 != 0 or not plan or not plan[0].startswith("Plan: 0 to transfer") or read_tree(droot) != snap):
+                res["violations"].append(("second-run-not-a-no-op", f"{direction}: source with a symlink to a regular file — the immediate second run planned {plan} (rc {rc2})", rep))
+
+
 def location_section(rng, thorough, rundir, model_run, res, count):
     """`FileLocation::parse` observed through the real CLI: `sync -r --dry-run SRC X` either lists X over (stand-in)
     ssh — the stub logs the host and the command, whose `cd $'…'` argument is the remote path — or treats X as a
@@ -419,7 +498,7 @@ def location_section(rng, thorough, rundir, model_run, res, count):
 def run(pid, tier, seed, rundir, model_run):
     rng = Rng(seed ^ 0xC04)
     thorough = tier == "thorough"
-    n = {"C04": 150, "C14": 110, "C15": 110}[pid] * (12 if thorough else 1)
+    n = {"C04": 150, "C14": 110, "C15": 110, "C19": 24}[pid] * (12 if thorough else 1)
     res = {"violations": [], "broken": [], "notes": [], "distribution": {}, "samples": []}
     dist = res["distribution"]
 
@@ -629,8 +708,13 @@ def run(pid, tier, seed, rundir, model_run):
         remote_failure_section(rng, thorough, res, count)
         deep_tree_section(rng, res, count)
         unlistable_dir_section(rng, res, count)
+        split_listing_section(rng, thorough, res, count)
     if pid == "C15":
         remote_failure_section(rng, thorough, res, count)      # (for its excluded-file-vs-directory part: excludes protect)
+    if pid == "C14":
+        symlink_second_run_section(res, count)
+    if pid == "C19":
+        split_listing_section(rng, thorough, res, count)       # the listing parser seen through the CLI: pieces, pauses
     if ndis:
         res["broken"].append(f"{pid}/corr: model and implementation disagree on {ndis} of {len(ops)} runs")
     res.update(evaluations=len(ops), distinct_nontrivial=len({q for q in ops if q.count("=") >= 2}), n_disagreements=ndis,
